@@ -83,7 +83,8 @@ func fresh(base string) string {
 }
 
 func intval(name string) int64 {
-	e, ok := values[fresh(name)]
+	k := fresh(name)
+	e, ok := values[k]
 	if !ok {
 		return 0
 	}
@@ -103,7 +104,8 @@ type skip struct{ why string }
 func Symbolic() bool { return false }
 
 func Bool(name string) bool {
-	e, ok := values[fresh(name)]
+	k := fresh(name)
+	e, ok := values[k]
 	if !ok {
 		return false
 	}
@@ -129,7 +131,8 @@ func IntRange(name string, lo, hi int) int {
 // Str is an arbitrary string of any length (opaque to the executor: only
 // ==, +, Contains/HasPrefix/HasSuffix are available on it).
 func Str(name string) string {
-	e, ok := values[fresh(name)]
+	k := fresh(name)
+	e, ok := values[k]
 	if !ok {
 		return ""
 	}
@@ -139,7 +142,8 @@ func Str(name string) string {
 
 // StrN is an arbitrary string of exactly n bytes (every byte symbolic).
 func StrN(name string, n int) string {
-	e, ok := values[fresh(name)]
+	k := fresh(name)
+	e, ok := values[k]
 	b := make([]byte, n)
 	if ok {
 		d, _ := hex.DecodeString(e.Hex)
